@@ -19,9 +19,6 @@ def Agrees (off : BitVec 64) (d : Dec) (r : Res (BitVec 32 × BitVec 64 × List 
 theorem data_bits : ∀ d : BitVec 8, (zx 64 ((zx 32 d) &&& (127#32))).toNat = d.toNat &&& DMASK := by
   decide +kernel
 
-theorem seven : (zx 64 (7#32)) = 7#64 := by decide
-theorem one64 : (zx 64 (1#32)) = 1#64 := by decide
-theorem zero64 : (zx 64 (0#32)) = 0#64 := by decide
 
 theorem acc_step (acc : BitVec 64) (d : BitVec 8) (i : BitVec 64) (hi : i.toNat < 10) :
     (acc ||| ((zx 64 ((zx 32 d) &&& (127#32))) <<< ((i * (zx 64 (7#32)))).toNat)).toNat
